@@ -146,9 +146,18 @@ pub fn distance<IntT: for<'a> UInt<'a>>(
     let mask_ambig = false;
     let ignore_const_gaps = false;
     let filter_ambig_as_missing = false;
-    let constant = apply_filters(
+    // Split k-mers below the frequency threshold are ignored, not counted as constant sites
+    apply_filters(
         ska_array,
         min_freq,
+        filter_ambig_as_missing,
+        &FilterType::NoFilter,
+        mask_ambig,
+        ignore_const_gaps,
+    );
+    let constant = apply_filters(
+        ska_array,
+        0.0,
         filter_ambig_as_missing,
         &FilterType::NoConst,
         mask_ambig,
